@@ -349,7 +349,9 @@ class Run:
         nviol = 0
         # a violation shown with a concrete failing input subsumes the reports that only name a broken theorem / tie
         # (their text is kept inside the replay file of the first concrete one)
-        concrete = [v for v in self.violations if v[2]]
+        known_keys = {k.get("key") for k in kf.get("known", []) if k.get("property") == self.id}
+        is_known = lambda v: bool(v[1].get("finding_key")) and v[1].get("finding_key") in known_keys
+        concrete = [v for v in self.violations if v[2] and not is_known(v)]
         if concrete:
             broken = [v[0] for v in self.violations if not v[2]]
             if broken:
@@ -357,7 +359,7 @@ class Run:
                 replay = dict(replay)
                 replay["also_broken"] = broken
                 concrete[0] = (what, replay, found)
-            self.violations = concrete
+            self.violations = [v for v in self.violations if is_known(v)] + concrete
         for n, (what, replay, found) in enumerate(self.violations):
             key = replay.get("finding_key")
             match = [k for k in kf.get("known", []) if k.get("property") == self.id and key and k.get("key") == key]
